@@ -147,12 +147,19 @@ def _c04(ctx):
     r.floor('constant relations', n, 10)
     out.append(r)
     out.append(_w1(ctx, 'C04', 5))
+    from .rules import parity
+    s2, nf2, no2 = parity.rule_S2(ctx, [NSP + 'PolarStereographic'])
+    s2.floor('Forward/Reverse bodies (UPS projection)', nf2, 2)
+    out.append(s2)
     out.append(_x7(ctx, ('src/UTMUPS.cpp',), 0, 0, 1))
     return out
 
 
 def _c05(ctx):
-    return _exc_rules(ctx, 'C05') + [_w1(ctx, 'C05', 3), _x9(ctx, ('src/MGRS.cpp',), 1, 100), _t3(ctx, {'MGRS'}, 25), _x7(ctx, ('src/MGRS.cpp',), 15, 8)]
+    from .rules import tab as _tab
+    t4, nt4 = _tab.rule_T4(ctx)
+    t4.floor('constant relations', nt4, 10)
+    return _exc_rules(ctx, 'C05') + [t4, _w1(ctx, 'C05', 3), _x9(ctx, ('src/MGRS.cpp',), 1, 100), _t3(ctx, {'MGRS'}, 25), _x7(ctx, ('src/MGRS.cpp',), 15, 8)]
 
 
 def _c10(ctx):
@@ -274,7 +281,9 @@ def _c12(ctx):
     m7, nf7, nc7 = licrules.rule_M7(ctx)
     m7.floor('gated functions', nf7, 15)
     m7.floor('mask-gated placeholders', nc7, 3)
-    return [m1, m2, m2c, m4, lic, m4c, m6, m7, _m8(ctx)]
+    m9, n9 = licrules.rule_M9(ctx)
+    m9.floor('mask selections', n9, 6)
+    return [m1, m2, m2c, m4, lic, m4c, m6, m7, _m8(ctx), m9]
 
 
 def _c09(ctx):
